@@ -51,7 +51,7 @@ def run(ctx):
     ctx.rule('C16.2', 'barred tool: every run site is reachable only through the true edge of tool_choice_enforcement.allows_function(&invocation.name) on the invocation that runs.')
     ctx.rule('C16.3', 'validation gate: RequestBuilder::send is reachable only when payload.errors().is_empty(); the JSON body is payload.body() of that payload; CreateResponsePayload has private fields, one constructor that validates, and no method handing out &mut.')
     ctx.rule('C16.4', 'one answer per call: every iteration of `for call in tool_calls` that comes back to the loop head passed exactly one tool_outputs.push whose call id is call.call_id; the collector is constructed per request.')
-    ctx.rule('C16.5', 'history only grows: after initialisation history_items is only pushed / extended / cloned.')
+    ctx.rule('C16.5', 'history only grows: after initialisation history_items is only pushed / extended / cloned; and between the history and the request body (request builders, payload builder, the loop itself) no filter / dedup / truncation is applied to a sequence of request items.')
 
     f = P.body(LOOP)
     ctx.touch(f)
@@ -260,6 +260,27 @@ def run(ctx):
             pass
     ndefs = len(f.defs(hist))
     ctx.ob('C16.5', f, 'history-append-only', not bad and ndefs <= 3, 'history vector `%s`: %d definition(s) (initialisation arms), shrinking calls: %s' % (f.lname(hist), ndefs, [b.name for b in bad]), line=bad[0].line if bad else f.line)
+    # ... and what is sent is what was accumulated: between the history and the request body (the request builders of
+    # ripd::provider_openresponses, the payload builder of the provider crate, the agent loop itself) nothing filters,
+    # de-duplicates or shortens a sequence of request items
+    SHRINK = r'alloc::vec::Vec::<T, A>::(retain|retain_mut|dedup|dedup_by|dedup_by_key|remove|swap_remove|truncate|clear|pop|drain|split_off)$|Iterator::(filter|filter_map|skip|take|step_by|skip_while|take_while|map_while)$|itertools.*::(unique|unique_by|dedup|dedup_by)$'
+    nsc = 0
+    drops = []
+    for p_, g in sorted(P.fns.items()):
+        if not (p_.startswith('ripd::provider_openresponses::') or p_.startswith('rip_provider_openresponses::request::') or p_.startswith('ripd::session::run_openresponses_agent_loop')):
+            continue
+        if not any('ItemParam' in (l_.get('ty') or '') for l_ in g.locals):
+            continue
+        nsc += 1
+        ctx.touch(g)
+        for s_ in g.sites():
+            if re.search(SHRINK, s_.callee or '') and (any('ItemParam' in x for x in s_.ga) or any('ItemParam' in (g.lty(r_) or '') for r_ in [g.root_local(a_, through_calls=(r'::deref_mut$', r'::deref$')) for a_ in s_.args[:1]] if r_ is not None)):
+                drops.append((g, s_))
+    ctx.floor('C16.5', 'functions handling request items between history and body', nsc, 4)
+    ctx.ob('C16.5', drops[0][0] if drops else f, 'request-items-never-dropped', not drops,
+           'no filter / dedup / truncation is applied to request items in %d function(s) between the history and the request body' % nsc if not drops else
+           '%s is applied to request items (line %s): an item of the history (an earlier call, its answer) can be DROPPED from the follow-up request — the provider no longer sees every call answered exactly once' % (drops[0][1].name, drops[0][1].line),
+           line=drops[0][1].line if drops else f.line)
     c167(ctx)
 
 
